@@ -253,7 +253,7 @@ func (x *Exec) quantifyForalls(env *CEnv, c *Contract, unbound []ParamSpec, qreq
 		ante = append(ante, pre.withPol(-1).evalBool(r))
 	}
 	body := sub.hyp(cl)
-	return mkForall(strings.Join(bvs, " "), implies(and(ante...), and(append(sides, body)...)))
+	return mkForallP(strings.Join(bvs, " "), nil, implies(and(ante...), and(append(sides, body)...)))
 }
 
 // havocModifies replaces the heap arrays named by a modifies list.
@@ -665,8 +665,13 @@ func (x *Exec) loopHeader(st *State, fr *Frame, h *ssa.BasicBlock, pred *ssa.Bas
 				if cur.S == old.S {
 					continue
 				}
-				x.emit(st, fmt.Sprintf("loop_frame:%s.%s", label, k2), "frame", eq(cur, old),
-					fmt.Sprintf("loop %d of %s leaves heap array %s unchanged (not in its modifies clause)", ord, fr.fn.Name(), k2))
+				goal := eq(cur, old)
+				if !strings.HasPrefix(k2, "ghost|") && rec.alloc.S != "" {
+					r := st.declare("sk.r", SInt)
+					goal = implies(tm(SBool, "(<= %s %s)", r.S, rec.alloc.S), eq(sel(cur, r, arrayElemSort(cur.Sort)), sel(old, r, arrayElemSort(old.Sort))))
+				}
+				x.emit(st, fmt.Sprintf("loop_frame:%s.%s", label, k2), "frame", goal,
+					fmt.Sprintf("loop %d of %s leaves heap array %s unchanged on objects that existed at the start of the iteration (not in its modifies clause)", ord, fr.fn.Name(), k2))
 			}
 		}
 		if len(st.trace) > rec.traceLen && (spec == nil || !spec.Emits) {
@@ -697,15 +702,34 @@ func (x *Exec) loopHeader(st *State, fr *Frame, h *ssa.BasicBlock, pred *ssa.Bas
 	}
 	setPhis(hv)
 	var keys []heapKey
+	var freshOnly []heapKey // written by the loop but not in its modifies clause: may change only at objects allocated by the loop
 	if spec != nil && len(spec.Modifies) > 0 {
+		declared := map[string]bool{}
 		for _, it := range spec.Modifies {
 			if it == "none" {
 				continue
 			}
-			keys = append(keys, x.modifiesKeys(st, fr.contract.Pkg, it)...)
+			for _, hk := range x.modifiesKeys(st, fr.contract.Pkg, it) {
+				declared[hk.key] = true
+				keys = append(keys, hk)
+			}
+		}
+		for _, hk := range x.loopWrites(st, fr, li.body[h]) {
+			if !declared[hk.key] && hk.key != "*all*" && !strings.HasPrefix(hk.key, "ghost|") {
+				freshOnly = append(freshOnly, hk)
+			}
 		}
 	} else {
 		keys = x.loopWrites(st, fr, li.body[h])
+	}
+	allocAtEntry := st.alloc
+	for _, hk := range freshOnly {
+		old := st.heapGet(hk.key, hk.sort)
+		na := st.declare("Hf."+hk.key, hk.sort)
+		r := freshName("r")
+		st.assume(tm(SBool, "(forall ((%s Int)) (! (=> (<= %s %s) (= (select %s %s) (select %s %s))) :pattern ((select %s %s))))",
+			r, r, allocAtEntry.S, na.S, r, old.S, r, na.S, r))
+		st.heap[hk.key] = na
 	}
 	for _, hk := range keys {
 		if hk.key == "*all*" {
@@ -728,7 +752,7 @@ func (x *Exec) loopHeader(st *State, fr *Frame, h *ssa.BasicBlock, pred *ssa.Bas
 		st.alloc = na
 	}
 	env = x.frameEnv(st, fr)
-	rec := loopRec{header: h.Index, frameID: fr.id, traceLen: len(st.trace), heap: st.heapCopy()}
+	rec := loopRec{header: h.Index, frameID: fr.id, traceLen: len(st.trace), heap: st.heapCopy(), alloc: st.alloc}
 	if spec != nil {
 		for _, inv := range spec.Inv {
 			st.assume(env.hyp(inv))
